@@ -1743,6 +1743,7 @@ func (s *State) execSlice(in *ssa.Slice, where string) Val {
 	v := Val{T: in.Type(), Terms: []string{app("-", h, l), and(x.Terms[1], eq(h, l))}}
 	if isSlice(x.T) {
 		v.Terms[1] = x.Terms[1]
+		v.Shared = true
 	}
 	shp := shapeOf(in.Type())
 	for i, t := range x.Terms[2:] {
